@@ -46,6 +46,23 @@ def mut_borrows(fn):
     return m
 
 
+def promoted_summary(fn, idx):
+    """what a promoted constant (`&EXPR` temporary) is built from: aggregates (Adt::Variant) and constants"""
+    out = dict(aggs=set(), consts=[])
+    proms = fn.r.get('promoted') or []
+    if idx >= len(proms):
+        return out
+    for b in proms[idx]:
+        for s in b['s']:
+            rv = s['rv']
+            if rv['k'] == 'agg' and rv.get('ak') == 'adt':
+                out['aggs'].add(rv['adt'] + '::' + rv['variant'])
+            for o in rv_operands(rv):
+                if 'k' in o:
+                    out['consts'].append(o['k'])
+    return out
+
+
 class Slice:
     """result of a backward slice: everything a value is (explicitly) data-derived from"""
 
@@ -104,6 +121,10 @@ def slice_back(fn, starts, through_calls=True, max_locals=4000, stop_at_calls=()
     def push_operand(o):
         if 'k' in o:
             sl.consts.append(o['k'])
+            if 'promoted' in o['k']:
+                ps = promoted_summary(fn, o['k']['promoted'])
+                sl.aggs |= ps['aggs']
+                sl.consts.extend(ps['consts'])
             return
         p = op_place(o)
         if p is not None:
@@ -337,12 +358,13 @@ def root_of(fn, local, depth=8):
                     adv = True
                 elif rv['k'] in ('use', 'cast'):
                     q = op_place(rv['a'])
-                    if q is not None:
+                    if q is not None and not q.p:   # plain move/copy of a whole local
                         st.append(q.l)
                         adv = True
         if not adv:
             roots.add(l)
-    return roots
+    # every local on the chain names (part of) the same object: report them all
+    return roots | seen
 
 
 def self_mutations(fn, self_local=1, allow_calls=()):
@@ -414,3 +436,71 @@ def ordered_on_all_ok_paths(fn, steps):
         if not call_success_dominates(fn, last, ex['bb']):
             return False, 'Ok exit at line %s not dominated by success of %s' % (ex.get('line'), last.callee)
     return True, ''
+
+
+# ----------------------------------------------------------------- branches
+def bool_switches(fn):
+    """two-way branches on a bool local: dict(bb, local, t_true, t_false, line)"""
+    out = []
+    live = fn.live_blocks()
+    for i, b in enumerate(fn.blocks):
+        if i not in live:
+            continue
+        t = b['t']
+        if t['k'] != 'switch' or len(t['ts']) != 1 or t['ts'][0][0] != 0:
+            continue
+        p = op_place(t['d'])
+        if p is None or p.p or fn.local_ty(p.l) != 'bool':
+            continue
+        out.append(dict(bb=i, local=p.l, t_false=t['ts'][0][1], t_true=t['o'], line=t.get('l')))
+    return out
+
+
+def variant_switches(fn):
+    """multi-way branches on an enum discriminant: dict(bb, place, enum, arms{variant: bb}, otherwise, line)"""
+    out = []
+    d = defs(fn)
+    live = fn.live_blocks()
+    for i, b in enumerate(fn.blocks):
+        if i not in live:
+            continue
+        t = b['t']
+        if t['k'] != 'switch':
+            continue
+        p = op_place(t['d'])
+        if p is None or p.p:
+            continue
+        sites = [s for s in d.get(p.l, ()) if s['kind'] == 'stmt' and s['rv']['k'] == 'discr']
+        if len(sites) != 1:
+            continue
+        rv = sites[0]['rv']
+        names = {v: n for v, n in rv.get('variants', [])}
+        arms = {names.get(v, str(v)): tb for v, tb in t['ts']}
+        # the `otherwise` arm stands for the variants not listed
+        rest = [n for v, n in rv.get('variants', []) if n not in arms]
+        other = t['o']
+        if len(rest) == 1 and fn.blocks[other]['t']['k'] != 'unreachable':
+            arms[rest[0]] = other
+        out.append(dict(bb=i, place=Place(rv['p']), enum=rv.get('enum'), arms=arms, otherwise=other, rest=rest, line=t.get('l')))
+    return out
+
+
+def reachable_without_edges(fn, target, cut, start=0):
+    """is block `target` reachable from `start` when the CFG edges in `cut` {(src,dst)} are removed"""
+    seen = set()
+    st = [start]
+    while st:
+        b = st.pop()
+        if b in seen:
+            continue
+        seen.add(b)
+        if b == target:
+            return True
+        for s in fn.succs(b):
+            if (b, s) not in cut:
+                st.append(s)
+    return False
+
+
+def arg_locals_of_type(fn, needle):
+    return [i for i in range(1, fn.r['argc'] + 1) if needle in fn.local_ty(i)]
